@@ -8,7 +8,7 @@ Open Scope string_scope.
 Open Scope list_scope.
 
 (* ---- the property over everything that is probed: a request that returns quietly was well-formed ---- *)
-(* Full statement; false of the faithful model (three known findings), kept visible: *)
+(* Full statement; false of the faithful model (known finding F3; F1 and F2 were repaired by D48 / D49), kept visible: *)
 Definition C20_full : Prop := C20_full_statement.
 (* = forall p, WFprobe p -> impl p = Ok -> WellFormed p *)
 
@@ -21,12 +21,6 @@ Theorem C20_malformed_is_loud : forall p, WFprobe p -> guard p = true -> ~ WellF
 Proof. exact malformed_is_loud. Qed.
 Print Assumptions C20_malformed_is_loud.
 
-Theorem C20_refuted_outputs : ~ C20_full_statement /\ guard_outputs_all_or_none F1_probe = false.
-Proof. exact GuardsProofs.C20_refuted_outputs. Qed.
-Print Assumptions C20_refuted_outputs.
-Theorem C20_refuted_node_value : ~ C20_full_statement /\ guard_node_value_node_exists F2_probe = false.
-Proof. exact GuardsProofs.C20_refuted_node_value. Qed.
-Print Assumptions C20_refuted_node_value.
 Theorem C20_refuted_verify_path : ~ C20_full_statement /\ guard_path_not_attr F3_probe = false.
 Proof. exact GuardsProofs.C20_refuted_verify_path. Qed.
 Print Assumptions C20_refuted_verify_path.
@@ -107,6 +101,39 @@ Theorem C20_input_before_D13_silent : exists net p, WFnet net /\ ~ Path3 net p /
 Proof. exact add_input_before_D13_silent. Qed.
 Print Assumptions C20_input_before_D13_silent.
 
+(* outputs (fix D48), node-level values (fix D49; `all` broadcasts included): no guard needed any more *)
+Theorem C20_outputs : forall net outs, WFnet net -> (resolve_outputs net outs = Ok <-> forall o, In o outs -> Path3 net o).
+Proof. exact resolve_outputs_ok_iff. Qed.
+Print Assumptions C20_outputs.
+Theorem C20_missing_output_raises : forall net outs o, WFnet net -> In o outs -> ~ Path3 net o ->
+  resolve_outputs net outs = Err EPyRates.
+Proof. exact missing_output_raises. Qed.
+Print Assumptions C20_missing_output_raises.
+Theorem C20_outputs_before_D48_silent : exists net outs o, WFnet net /\ In o outs /\ ~ Path3 net o /\
+  resolve_outputs_before_D48 net outs = Ok.
+Proof. exact outputs_before_D48_silent. Qed.
+Print Assumptions C20_outputs_before_D48_silent.
+Theorem C20_node_value : forall net p, node_value net p = Ok -> NodeValueTarget net p.
+Proof. exact node_value_ok_target. Qed.
+Print Assumptions C20_node_value.
+Theorem C20_node_value_missing_operator : forall (net : network) n o v (ops : list opd), String.eqb n "all" = false ->
+  lookup n net = Some ops -> lookup o ops = None -> node_value net [n; o; v] = Err EPyRates.
+Proof. exact node_value_missing_operator. Qed.
+Print Assumptions C20_node_value_missing_operator.
+Theorem C20_node_value_broadcast_missing_operator : forall (net : network) m ops rest o v,
+  net = (m, ops) :: rest -> lookup o ops = None -> node_value net ["all"; o; v] = Err EPyRates.
+Proof. exact node_value_broadcast_missing_operator. Qed.
+Print Assumptions C20_node_value_broadcast_missing_operator.
+Theorem C20_node_value_unknown_node_warns : forall (net : network) n o v, String.eqb n "all" = false ->
+  lookup n net = None -> node_value net [n; o; v] = Warn /\ node_value_before_D49 net [n; o; v] = Ok.
+Proof. exact node_value_unknown_node_warns. Qed.
+Print Assumptions C20_node_value_unknown_node_warns.
+
+(* a model that mixes a plain-delay edge with a delay+spread edge is treated like a discrete delay, in either order *)
+Theorem C20_mixed_delays : forall b s v fp e, mixed_outcome b s v fp e = Ok -> Supported (mixed_config b s v e).
+Proof. exact mixed_ok_supported. Qed.
+Print Assumptions C20_mixed_delays.
+
 (* operator graph of a node: any number of operators *)
 Theorem C20_cycle_rejected : forall ops S, CyclicSet (map oname ops) (op_edges ops) S -> check_op_graph ops = Err EPyRates.
 Proof. exact cyclic_op_graph_rejected. Qed.
@@ -134,6 +161,9 @@ Example C20_nonvacuous :
   outcome (mkc BJax SEuler true DDiscrete false true EFunc) = Err ENotImpl /\
   outcome (mkc BJax SScipy true DDiscrete false true EFunc) = Ok /\
   outcome (mkc BJax SScipy true DNone true true EJac) = Err ENotImpl /\
+  mixed_outcome BJax SEuler false true ERun = Err ENotImpl /\ mixed_outcome BJax SEuler false false ERun = Err ENotImpl /\
+  mixed_outcome BDefault SEuler false true ERun = Ok /\
+  node_value F1_net ["all"; "ob"; "r"] = Err EPyRates /\ node_value F1_net ["all"; "oa"; "r"] = Ok /\
   check_vname "q_buffer_1" = Err EPyRates /\ check_vname "buffer" = Ok /\
   toposort ["c"; "b"; "a"] [("a", "b"); ("b", "c")] = Some ["a"; "b"; "c"] /\
   toposort ["c"; "b"; "a"] [("a", "b"); ("b", "c"); ("c", "a")] = None.
